@@ -212,6 +212,8 @@ class Generator(Curve, Point):
                     recid += 2
                 return r, s, recid
             k += 1
+            if k >= n:  # type: ignore[operator]
+                k = 1
 
     def sign(
         self,
